@@ -39,16 +39,106 @@ def vec_inside(rng, pool, mode="inside"):
     return vec
 
 
+def referenced(e, acc=None):
+    """Pool indices of the priors a program's tree refers to."""
+    acc = set() if acc is None else acc
+    t = e["t"]
+    if t == "prior":
+        acc.add(e["ref"])
+    elif t == "arith":
+        referenced(e["l"], acc)
+        referenced(e["r"], acc)
+    elif t == "tuple":
+        for m in e["members"]:
+            referenced(m, acc)
+    elif t == "model":
+        for v in e["kw"].values():
+            referenced(v, acc)
+        for _, v in e.get("extra", []):
+            referenced(v, acc)
+    elif t == "coll":
+        for _, v in e["items"]:
+            referenced(v, acc)
+    return sorted(acc)
+
+
+def model_sites(e, path=()):
+    """(path to a Model node, node) for every Model reachable through Model/Collection attributes."""
+    out = []
+    if e["t"] == "model":
+        out.append((list(path), e))
+        for arg, kind, extra in MG.SIGNATURES[e["cls"]]:
+            if kind == "class":
+                out += model_sites(e["kw"][arg], path + (arg,))
+    elif e["t"] == "coll":
+        for k, sub in e["items"]:
+            out += model_sites(sub, path + (k,))
+    return out
+
+
+def apply_edit(root, edit):
+    import copy
+    new = copy.deepcopy(root)
+    node = new
+    for k in edit["path"]:
+        if node["t"] == "model":
+            node = node["kw"][k]
+        else:
+            node = [sub for kk, sub in node["items"] if kk == k][0]
+    arg = edit["arg"]
+    if "_" in arg and arg.rsplit("_", 1)[0] in node["kw"] and node["kw"][arg.rsplit("_", 1)[0]]["t"] == "tuple":
+        node["kw"][arg.rsplit("_", 1)[0]]["members"][int(arg.rsplit("_", 1)[1])] = edit["new"]
+    else:
+        node["kw"][arg] = edit["new"]
+    return new
+
+
+def vec_for(rng, pool, refs):
+    full = vec_inside(rng, pool)
+    return [full[i] for i in refs]
+
+
 def gen_cases(ctx, n):
+    rng = ctx.rng
     cases = []
     for i in range(n):
-        g = MG.Gen(ctx.rng, max_depth=2 if ctx.tier == "quick" else 4, big_tuples=True)
+        g = MG.Gen(rng, max_depth=2 if ctx.tier == "quick" else 4, big_tuples=True)
         prog = g.program()
         if len(prog["pool"]) > 40:
             continue
-        vec = vec_inside(ctx.rng, prog["pool"])
-        unit = [ctx.rng.choice([0.0, 0.25, 0.5, 1.0, ctx.rng.random()]) for _ in prog["pool"]]
-        cases.append({"program": prog, "vec": [v.hex() for v in vec], "unit": [u.hex() for u in unit]})
+        c = {"program": prog}
+        sites = model_sites(prog["root"])
+        if sites and rng.random() < 0.45:
+            # an edit applied after a freeze / query / unfreeze cycle; may introduce a prior created
+            # up front but unused so far (appended to the pool)
+            path, node = rng.choice(sites)
+            choices = []
+            for arg, kind, extra in MG.SIGNATURES[node["cls"]]:
+                if kind == "float":
+                    choices.append(arg)
+                elif kind == "tuple":
+                    choices += ["%s_%d" % (arg, j) for j in range(extra)]
+            if choices:
+                arg = rng.choice(choices)
+                r = rng.random()
+                if r < 0.45:
+                    new = {"t": "const", "v": (rng.randint(-8, 8) / 4.0).hex()}
+                elif r < 0.75 and prog["pool"]:
+                    new = {"t": "prior", "ref": rng.randrange(len(prog["pool"]))}
+                else:
+                    prog["pool"].append({"family": "uniform", "lo": (-1.0).hex(), "hi": (3.0).hex()})
+                    new = {"t": "prior", "ref": len(prog["pool"]) - 1}
+                c["edit"] = {"path": path, "arg": arg, "new": new}
+                prog["features"] = sorted(set(prog["features"]) | {"edit-after-freeze"})
+        refs = referenced(prog["root"])
+        c["vec"] = [v.hex() for v in vec_for(rng, prog["pool"], refs)]
+        c["unit"] = [rng.choice([0.0, 0.25, 0.5, 1.0, rng.random()]).hex() for _ in refs]
+        if "edit" in c:
+            root2 = apply_edit(prog["root"], c["edit"])
+            refs2 = referenced(root2)
+            c["vec2"] = [v.hex() for v in vec_for(rng, prog["pool"], refs2)]
+            c["unit2"] = [rng.choice([0.0, 0.25, 0.5, 1.0, rng.random()]).hex() for _ in refs2]
+        cases.append(c)
     return cases
 
 
@@ -66,7 +156,7 @@ def expected_instance(e, vec):
     """The property statement, computed directly from the program (independent of the Coq model)."""
     t = e["t"]
     if t == "prior":
-        return {"t": "v", "v": vec[e["ref"]].hex()}
+        return {"t": "v", "v": float(vec[e["ref"]]).hex()}
     if t == "const":
         return {"t": "v", "v": unhex(e["v"]).hex()}
     if t == "arith":
@@ -138,15 +228,18 @@ def has_division_by_zero(e, vec):
     return False
 
 
-def oracle(c, r):
+def oracle(c, r, root=None, vec_hex=None):
     prog = c["program"]
-    n = len(prog["pool"])
-    vec = [unhex(x) for x in c["vec"]]
+    root = prog["root"] if root is None else root
+    refs = referenced(root)
+    n = len(refs)
+    vlist = [unhex(x) for x in (c["vec"] if vec_hex is None else vec_hex)]
+    vec = dict(zip(refs, vlist))
     if not r["id_order_ok"]:
         return "harness: pool ids not increasing"
     if r["count"] != n:
         return "prior_count %d but %d distinct free parameters" % (r["count"], n)
-    if r["ids"] != list(range(n)):
+    if r["ids"] != refs:
         return "priors_ordered_by_id is not creation order: %s" % r["ids"]
     if len(r["upaths"]) != n:
         return "unique_prior_paths has %d entries for %d parameters" % (len(r["upaths"]), n)
@@ -155,12 +248,12 @@ def oracle(c, r):
     if "exc" in r["inst"]:
         return "instance_from_vector raised %s for a vector within limits" % r["inst"]["exc"]
     inst = r["inst"]["ok"]
-    exp = expected_instance(prog["root"], vec)
+    exp = expected_instance(root, vec)
     # i-th value at the i-th advertised path
     for i, p in enumerate(r["upaths"]):
         got = navigate(inst, p)
-        if got is not None and got["t"] == "v" and unhex(got["v"]) != vec[i]:
-            return "value %d (%r) is not at advertised path %s (found %r)" % (i, vec[i], ".".join(p), unhex(got["v"]))
+        if got is not None and got["t"] == "v" and unhex(got["v"]) != vlist[i]:
+            return "value %d (%r) is not at advertised path %s (found %r)" % (i, vlist[i], ".".join(p), unhex(got["v"]))
     if not same_inst(exp, inst):
         return "instance_from_vector differs from the instance the composition denotes"
     for name in ("inst_paths",):
@@ -176,11 +269,11 @@ def oracle(c, r):
     return None
 
 
-def coq_case(c, r):
+def coq_case(c, r, vec_hex=None):
     tree = r["tree"]
     return ("{| c_tree := %s; c_vec := %s; c_paths := %s; c_upaths := %s; c_count := %s; c_ids := %s; "
             "c_inst := %s; c_inst_paths := %s |}") % (
-        MG.coq_node(tree), clist([cfloat(unhex(x)) for x in c["vec"]]),
+        MG.coq_node(tree), clist([cfloat(unhex(x)) for x in (c["vec"] if vec_hex is None else vec_hex)]),
         clist([MG.coq_path(p) for p in r["paths"]]), clist([MG.coq_path(p) for p in r["upaths"]]),
         cnat(r["count"]), clist([cnat(x) for x in r["ids"]]),
         MG.coq_ival(r["inst"]["ok"]), MG.coq_ival(r["inst_paths"]["ok"]))
@@ -229,44 +322,52 @@ def run(ctx):
     for i, (c, r) in enumerate(zip(cases, results)):
         prog = c["program"]
         feats = set(prog["features"])
-        nontrivial = len(prog["pool"]) >= 2 and bool(feats & {"shared", "nested", "tuple", "arith", "const"})
+        nrefs = len(referenced(prog["root"]))
+        nontrivial = nrefs >= 2 and bool(feats & {"shared", "nested", "tuple", "arith", "const", "edit-after-freeze"})
         ctx.count_case(c, nontrivial)
         for f in feats:
             ctx.hist("feature", f)
-        ctx.hist("priors", min(len(prog["pool"]), 20))
+        ctx.hist("priors", min(nrefs, 20))
         ctx.oracle["cases"] += 1
         if "exc" in r:
             ctx.oracle["failures"] += 1
             ctx.failure("oracle", "model composition raised %s: %s" % (r["exc"], r.get("msg", "")[-300:]), c, classes=classes_of(c))
             continue
         r = r["ok"]
-        vec = [unhex(x) for x in c["vec"]]
-        if has_division_by_zero(prog["root"], vec):
-            ctx.hist("skipped", "division-by-zero")
-            continue
-        if not MG.same_tree(MG.expected_tree(prog["root"]), r["tree"]):
-            ctx.oracle["failures"] += 1
-            ctx.failure("correspondence", "the composition API built a different object graph than the program denotes",
-                        c, classes=classes_of(c), impl=r["tree"], broken={"kind": "correspondence", "name": "two-sided abstraction"})
-            continue
-        msg = oracle(c, r)
-        if msg:
-            ctx.oracle["failures"] += 1
-            ctx.failure("oracle", msg, c, classes=classes_of(c), impl={k: r[k] for k in ("paths", "upaths", "count", "ids", "inst")})
-        if "ok" in r["inst"] and "ok" in r["inst_paths"] and MG.tree_ok_for_model(r["tree"]):
-            coq_cases.append(coq_case(c, r))
-            coq_idx.append(i)
+        phases = [("initial", prog["root"], c["vec"], r)]
+        if "edit" in c and "phase2" in r:
+            root2 = apply_edit(prog["root"], c["edit"])
+            phases.append(("re-frozen after edit", root2, c["vec2"], r["phase2"]))
+            phases.append(("unfrozen after edit", root2, c["vec2"], r["phase3"]))
+        for phase, root, vec_hex, ro in phases:
+            refs = referenced(root)
+            vmap = dict(zip(refs, [unhex(x) for x in vec_hex]))
+            if has_division_by_zero(root, vmap):
+                ctx.hist("skipped", "division-by-zero")
+                continue
+            if not MG.same_tree(MG.expected_tree(root), ro["tree"]):
+                ctx.oracle["failures"] += 1
+                ctx.failure("correspondence", "[%s] the composition API built a different object graph than the program denotes" % phase,
+                            c, classes=classes_of(c), impl=ro["tree"], broken={"kind": "correspondence", "name": "two-sided abstraction"})
+                continue
+            msg = oracle(c, ro, root, vec_hex)
+            if msg:
+                ctx.oracle["failures"] += 1
+                ctx.failure("oracle", "[%s] %s" % (phase, msg), c, classes=classes_of(c),
+                            impl={k: ro[k] for k in ("paths", "upaths", "count", "ids", "inst")})
+            if "ok" in ro["inst"] and "ok" in ro["inst_paths"] and MG.tree_ok_for_model(ro["tree"]):
+                coq_cases.append(coq_case(c, ro, vec_hex))
+                coq_idx.append((i, phase))
         if i % 40 == 0:
             ctx.sample({"program_root": prog["root"] if len(str(prog["root"])) < 600 else "(large)", "features": prog["features"],
-                        "n_priors": len(prog["pool"]), "paths": r["paths"][:6]})
+                        "n_priors": nrefs, "paths": r["paths"][:6], "edit": c.get("edit")})
     if os.path.exists(os.path.join(common.COQ, "C01", "Model.vo")):
         hdr = ctx.header(["Common.PyFloat", "ModelTree", "Model"])
         bad, log = ctx.eval_cases(hdr, "case", "check_case", coq_cases, shard=40)
         for b in (bad or [])[:5]:
-            i = coq_idx[b]
-            o = oracle(cases[i], results[i]["ok"])
-            ctx.failure("correspondence", "Coq model and implementation disagree" + (": " + o if o else ""), cases[i],
+            i, phase = coq_idx[b]
+            ctx.failure("correspondence", "[%s] Coq model and implementation disagree" % phase, cases[i],
                         classes=classes_of(cases[i]), impl=results[i]["ok"],
-                        broken={"kind": "correspondence", "name": "C01.check_case"}, found_input=o is not None)
+                        broken={"kind": "correspondence", "name": "C01.check_case"}, found_input=False)
     else:
         ctx.obligation("correspondence:cases", "correspondence", False, "Model.vo not built")
